@@ -73,9 +73,30 @@ def pad_header(part, total):
     return h2 + data[eol:], nlines
 
 
+#: options that mean something on OTHER sections, with values that would be
+#: invalid there: on a container they are just options it does not use
+CONTAINER_DECOR = [b'length=-1', b'length=none', b'indent=-2',
+                   b'line_endings=mac', b'format=yaml', b'type=zzz',
+                   b'mimetype=x/y', b'length=0', b'indent=x']
+
+
 def check_seq(seq, obs, main_options_everywhere=False, pad=None,
-              crlf=False, reiterate=False, blanks=None):
+              crlf=False, reiterate=False, blanks=None, other_eol=False,
+              decorate=None):
     parts = [section_bytes(s) for s in seq]
+    if decorate is not None:
+        out = []
+        for i, (sid, p) in enumerate(zip(seq, parts)):
+            name = sid.lstrip('.')
+            if name in ('change', 'file'):
+                opt = CONTAINER_DECOR[(decorate + i) % len(CONTAINER_DECOR)]
+                p = (p[0].replace(b':\n', b': ' + opt + b'\n', 1), p[1])
+            elif name == 'diffx' and i == 0:
+                opt = CONTAINER_DECOR[(decorate + i) % len(CONTAINER_DECOR)]
+                p = (p[0].replace(b': encoding', b': ' + opt + b', encoding',
+                                  1), p[1])
+            out.append(p)
+        parts = out
     if pad:
         # header lines of exactly 96 / 192 / 288 bytes: a legal order must
         # stay legal wherever headers fall relative to read-ahead blocks
@@ -101,6 +122,10 @@ def check_seq(seq, obs, main_options_everywhere=False, pad=None,
         # order is judged exactly as without them (and they are not counted
         # as logical lines)
         eol = b'\r\n' if crlf else b'\n'
+        if other_eol:
+            # ... also when they end in the other terminator than the
+            # header lines (whitespace is whitespace)
+            eol = b'\n' if crlf else b'\r\n'
         parts = [((eol * blanks[i % len(blanks)]) + p[0], p[1])
                  for i, p in enumerate(parts)]
     data = b''.join(p[0] for p in parts)
@@ -158,6 +183,7 @@ def check_seq(seq, obs, main_options_everywhere=False, pad=None,
     case = {'sequence': list(seq), 'pad': list(pad) if pad else None,
             'crlf': crlf, 'reiterate': reiterate,
             'blanks': list(blanks) if blanks else None,
+            'other_eol': other_eol, 'decorate': decorate,
             'main_options_everywhere': main_options_everywhere}
     got_ids = [r['section'] for r in recs]
     if exc is not None and not common.is_parse_error(exc):
@@ -260,7 +286,13 @@ def run(ctx):
                         i // 8 % 5]
                     check_seq(p + (ext,), obs, blanks=bl)
                     check_seq(p + (ext,), obs, blanks=bl, crlf=True)
-                    n += 2
+                    check_seq(p + (ext,), obs, blanks=bl, other_eol=True)
+                    check_seq(p + (ext,), obs, blanks=bl, crlf=True,
+                              other_eol=True)
+                    n += 4
+                if i % 8 == 2:
+                    check_seq(p + (ext,), obs, decorate=i // 8)
+                    n += 1
     for first in H.ALL_IDS:
         for second in ('.change', '.meta', 'diffx'):
             i += 1
@@ -292,4 +324,6 @@ def replay(case, obs):
               case.get('main_options_everywhere', False),
               pad=case.get('pad'), crlf=case.get('crlf', False),
               reiterate=case.get('reiterate', False),
-              blanks=case.get('blanks'))
+              blanks=case.get('blanks'),
+              other_eol=case.get('other_eol', False),
+              decorate=case.get('decorate'))
